@@ -44,6 +44,9 @@ type c18EniConf struct {
 	VSw      []c18VSw `json:"vsw"`
 	SGs      int      `json:"sgs"`
 	SingleSG bool     `json:"single_sg,omitempty"` // also set the legacy security_group field
+	// the legacy security_group value is one of the security_groups entries (the
+	// effective default list is the union of both fields)
+	LegacyInList bool `json:"legacy_in_list,omitempty"`
 }
 
 type c18NS struct {
@@ -320,10 +323,23 @@ func c18Gen(t *rapid.T) c18Scenario {
 	s.EniConf.Missing = c18Pct(t, 4, "eniconf-missing")
 	s.EniConf.VSw = c18GenVSw(t, "eniconf-vsw", 1, 3)
 	s.EniConf.SGs = rapid.IntRange(1, 5).Draw(t, "eniconf-sgs")
-	if c18Pct(t, 3, "eniconf-too-many-sgs") {
-		s.EniConf.SGs = 11
-	}
 	s.EniConf.SingleSG = c18Pct(t, 20, "eniconf-single-sg")
+	// the ten-group boundary of the effective default list: 9, 10 or 11 entries in
+	// security_groups, combined with a legacy security_group that is absent, among the
+	// entries, or a further group (union of 9..12)
+	if c18Pct(t, 20, "eniconf-sgs-boundary") {
+		s.EniConf.SGs = []int{10, 9, 10, 11}[c18Pick(t, 4, "eniconf-sgs-9-11")]
+		switch c18Pick(t, 4, "eniconf-legacy") {
+		case 0:
+			s.EniConf.SingleSG = false
+		case 1:
+			s.EniConf.SingleSG, s.EniConf.LegacyInList = true, true
+		default:
+			s.EniConf.SingleSG = true
+		}
+	} else if s.EniConf.SingleSG && c18Pct(t, 30, "eniconf-legacy-in-list") {
+		s.EniConf.LegacyInList = true
+	}
 
 	nns := 1 + c18Pick(t, 3, "n-namespaces")
 	for i := 0; i < nns; i++ {
